@@ -51,6 +51,9 @@ type DiffCase struct {
 	Decls  string // top-level declarations the case needs (generic functions)
 	Inputs []Input
 	Tag    interface{} // carried through to the report
+	// Uncompilable is set by RunDiff when the case's code is rejected by the compiler (a suggestion that is not
+	// valid Go is C09's subject): the case is left out and the remaining cases are still executed
+	Uncompilable bool
 }
 
 // Mismatch is one observed behavioural difference.
@@ -70,6 +73,7 @@ import (
 	"fmt"
 	"math"
 	"os"
+	"reflect"
 	"strconv"
 	"strings"
 	"time"
@@ -212,6 +216,37 @@ type node struct {
 
 func setG() { gxs = []int{1} }
 
+const cLim = 5
+const cLo, cHi = 2, 7
+const cOne = 1
+const cF = 2.5
+const cS = "ab"
+const cT int = 9
+
+// verifIsNil: is v the nil value of its type (judged where nil is the predeclared identifier)
+func verifIsNil(v interface{}) bool {
+	if v == nil {
+		return true
+	}
+	switch rv := reflect.ValueOf(v); rv.Kind() {
+	case reflect.Ptr, reflect.Slice, reflect.Map, reflect.Func, reflect.Chan, reflect.Interface:
+		return rv.IsNil()
+	}
+	return false
+}
+
+// verifSame: do two operands hold the same value — equal renderings, and for pointers the same object
+func verifSame(x, y interface{}) bool {
+	if fmt.Sprint(x) != fmt.Sprint(y) {
+		return false
+	}
+	if rx := reflect.ValueOf(x); rx.IsValid() && rx.Kind() == reflect.Ptr {
+		ry := reflect.ValueOf(y)
+		return ry.IsValid() && ry.Kind() == reflect.Ptr && rx.Pointer() == ry.Pointer()
+	}
+	return true
+}
+
 func run(f func(in) interface{}, i in) (out string) {
 	logbuf = logbuf[:0]
 	cnt = 0
@@ -285,7 +320,7 @@ const unpack = "a, b, c, u, v, p, q, s, t, k, l, xs, bs, tm := i.A, i.B, i.C, i.
 	"\t_, _, _, _, _, _, _, _, _, _, _, _, _, _ = a, b, c, u, v, p, q, s, t, k, l, xs, bs, tm\n" +
 	"\tms, mi, mm, ma := myStr(s), myInts(xs), myMap{0: s, 1: t}, myArr{a, b, c}\n\tpa, w := &ma, &wr{}\n\tgxs, gf, gn = nil, hi, 0\n" +
 	"\tmf, mg, mc, mc2 := myF(p), myF(q), myC(complex(p, q)), myC(complex(q, p))\n\tfa := [2]myF{mf, mg}\n\tw.g = mg\n" +
-	"\tvv, it := val{a}, &iter{}\n\tvar pe *myE\n\tif k {\n\t\tpe = &myE{}\n\t}\n\t_ = pe\n" +
+	"\tvv, it := val{a}, &iter{}\n\tvar pe *myE\n\tif k {\n\t\tpe = &myE{}\n\t}\n\t_ = pe\n\tcx := complex(p, q)\n\t_ = cx\n" +
 	"\t_, _, _, _, _, _, _, _, _, _, _, _, _ = ms, mi, mm, ma, pa, w, mf, mg, mc, mc2, fa, vv, it\n"
 
 func caseFunc(kind, body string) string {
@@ -302,45 +337,71 @@ func RunDiff(workDir string, cases []*DiffCase) ([]Mismatch, int, error) {
 		return nil, 0, nil
 	}
 	common.Must(os.MkdirAll(workDir, 0o755))
-	var b strings.Builder
-	b.WriteString(diffPrelude)
-	b.WriteString(FmtCatalogue())
-	seenDecl := map[string]bool{}
-	for _, c := range cases {
-		if c.Decls != "" && !seenDecl[c.Decls] {
-			seenDecl[c.Decls] = true
-			b.WriteString("\n" + c.Decls + "\n")
-		}
-	}
-	b.WriteString("\nvar fns = map[int][2]func(in) interface{}{\n")
 	type spec struct {
 		ID     int     `json:"id"`
 		Expect string  `json:"expect"`
 		Inputs []Input `json:"inputs"`
 	}
-	var specs []spec
 	byID := map[int]*DiffCase{}
 	for _, c := range cases {
 		byID[c.ID] = c
-		nw := c.New
-		if c.Expect != "" {
-			nw = c.Orig
-		}
-		fmt.Fprintf(&b, "\t%d: {\n%s,\n%s,\n},\n", c.ID, caseFunc(c.Kind, c.Orig), caseFunc(c.Kind, nw))
-		specs = append(specs, spec{c.ID, c.Expect, c.Inputs})
 	}
-	b.WriteString("}\n")
-	common.WriteFile(filepath.Join(workDir, "main.go"), b.String())
-	common.WriteFile(filepath.Join(workDir, "go.mod"), "module difft\n\ngo 1.21\n")
-	data, err := json.Marshal(specs)
-	if err != nil {
-		return nil, 0, err
-	}
-	common.Must(os.WriteFile(filepath.Join(workDir, "inputs.json"), data, 0o644))
 	bin := filepath.Join(workDir, "difft")
-	out, code, err := common.Run(5*time.Minute, workDir, common.GoEnv("GOFLAGS=-mod=mod"), "go", "build", "-o", bin, ".")
-	if err != nil || code != 0 {
-		return nil, 0, fmt.Errorf("differential program does not build (%v):\n%s", err, firstLines(out, 30))
+	lineRe := regexp.MustCompile(`(?m)^\./main\.go:(\d+):`)
+	for round := 0; ; round++ {
+		var b strings.Builder
+		b.WriteString(diffPrelude)
+		b.WriteString(FmtCatalogue())
+		seenDecl := map[string]bool{}
+		for _, c := range cases {
+			if c.Decls != "" && !seenDecl[c.Decls] && !c.Uncompilable {
+				seenDecl[c.Decls] = true
+				b.WriteString("\n" + c.Decls + "\n")
+			}
+		}
+		b.WriteString("\nvar fns = map[int][2]func(in) interface{}{\n")
+		var specs []spec
+		type span struct{ from, to, id int }
+		var spans []span
+		for _, c := range cases {
+			if c.Uncompilable {
+				continue
+			}
+			nw := c.New
+			if c.Expect != "" {
+				nw = c.Orig
+			}
+			from := strings.Count(b.String(), "\n") + 1
+			fmt.Fprintf(&b, "\t%d: {\n%s,\n%s,\n},\n", c.ID, caseFunc(c.Kind, c.Orig), caseFunc(c.Kind, nw))
+			spans = append(spans, span{from, strings.Count(b.String(), "\n"), c.ID})
+			specs = append(specs, spec{c.ID, c.Expect, c.Inputs})
+		}
+		b.WriteString("}\n")
+		common.WriteFile(filepath.Join(workDir, "main.go"), b.String())
+		common.WriteFile(filepath.Join(workDir, "go.mod"), "module difft\n\ngo 1.21\n")
+		data, err := json.Marshal(specs)
+		if err != nil {
+			return nil, 0, err
+		}
+		common.Must(os.WriteFile(filepath.Join(workDir, "inputs.json"), data, 0o644))
+		out, code, err := common.Run(5*time.Minute, workDir, common.GoEnv("GOFLAGS=-mod=mod"), "go", "build", "-gcflags=-e", "-o", bin, ".")
+		if err == nil && code == 0 {
+			break
+		}
+		// attribute the compiler's complaints to cases; leave those cases out and build again
+		dropped := 0
+		for _, m := range lineRe.FindAllStringSubmatch(out, -1) {
+			ln, _ := strconv.Atoi(m[1])
+			for _, sp := range spans {
+				if sp.from <= ln && ln <= sp.to && !byID[sp.id].Uncompilable {
+					byID[sp.id].Uncompilable = true
+					dropped++
+				}
+			}
+		}
+		if dropped == 0 || round >= 4 {
+			return nil, 0, fmt.Errorf("differential program does not build (%v):\n%s", err, firstLines(out, 30))
+		}
 	}
 	so, se, code, err := common.RunSplit(5*time.Minute, workDir, os.Environ(), bin, filepath.Join(workDir, "inputs.json"))
 	if err != nil || code != 0 {
@@ -405,7 +466,7 @@ func Grid(r *rand.Rand, text string, max int) []Input {
 	if used["vv"] || used["val"] {
 		used["a"] = true
 	}
-	if used["mf"] || used["mg"] || used["mc"] || used["mc2"] || used["fa"] || used["w"] {
+	if used["mf"] || used["mg"] || used["mc"] || used["mc2"] || used["fa"] || used["w"] || used["cx"] {
 		used["p"], used["q"] = true, true
 	}
 	if used["fmf"] {
@@ -415,6 +476,11 @@ func Grid(r *rand.Rand, text string, max int) []Input {
 		used["a"], used["b"], used["c"] = true, true, true
 	}
 	lits := map[int]bool{0: true, 1: true}
+	for name, v := range ConstInts {
+		if used[name] {
+			lits[v] = true
+		}
+	}
 	for _, m := range intLitRe.FindAllString(text, -1) {
 		if v, err := strconv.ParseInt(m, 0, 64); err == nil && v < 1<<20 {
 			lits[int(v)] = true
